@@ -37,7 +37,12 @@ REQUIRED = ["programs", "steps_checked", "timed_resumes", "select_timeouts",
             "nested_subtask_returns", "nested_subtask_raises",
             "late_started_timers", "absolute_timers", "tasks_raised_non_exception",
             "select_with_non_list_collections",
-            "timer_callbacks_returning_a_value"]
+            "timer_callbacks_returning_a_value", "programs_on_the_scheduler_thread",
+            "recv_timeouts", "select_keyword_timeouts", "select_several_ready",
+            "select_writable", "tasks_failed_in_blocking_op",
+            "blocks_via_sleep_without_time", "sleeps_to_a_past_deadline",
+            "subtask_falsy_returns", "plain_task_functions",
+            "timers_that_may_not_stop_themselves"]
 TIMEOUT = {"quick": 1200, "thorough": 9000}
 
 _st = {}
@@ -65,6 +70,12 @@ def get_world (epoll):
   return w
 
 
+def same_value (got, want):
+  """A sub-task's result reaches its caller as it is: 0 is not None, nor
+  False, nor 0.0."""
+  return type(got) is type(want) and got == want
+
+
 class _Horizon (BaseException):
   pass
 
@@ -81,6 +92,20 @@ def run_program (case, rep):
   def fire (key, what):
     rep.violation("C06 " + key, what, case)
   rep.count("programs")
+  import threading
+  saved_thread = sched._thread
+  if case.get("inthread"):
+    # as in production, the code that wakes tasks runs on the scheduler's
+    # own thread: schedule() takes its direct branch, not the ScheduleTask one
+    sched._thread = threading.current_thread()
+    rep.count("programs_on_the_scheduler_thread")
+  try:
+    return _run_program(case, rep, w, clock, sched, fire, rc)
+  finally:
+    sched._thread = saved_thread
+
+
+def _run_program (case, rep, w, clock, sched, fire, rc):
   _st["dups"] = []
   errs = []
   tasks = {}
@@ -115,7 +140,7 @@ def run_program (case, rep):
       if ip["end"] == "raise":
         errs.append(("sub-task exception did not reach its caller",
                      "nested call %r got value %r" % (itag, iv)))
-      elif iv != ip["value"]:
+      elif not same_value(iv, ip["value"]):
         errs.append(("sub-task result did not reach its caller",
                      "nested call %r got %r expected %r" % (itag, iv, ip["value"])))
       else:
@@ -156,6 +181,14 @@ def run_program (case, rep):
       raise ValueError("sub-task %s fails" % (tag,))
     yield plan["value"]
 
+  @rc.task_function
+  def tf_plain (tag, plan):
+    # an ordinary function behind the decorator: its return value is the
+    # result (it cannot block)
+    if plan["end"] == "raise":
+      raise ValueError("sub-task %s fails" % (tag,))
+    return plan["value"]
+
   def body (tid, steps):
     for k, st in enumerate(steps):
       kind = st[0]
@@ -175,11 +208,17 @@ def run_program (case, rep):
         else: v = yield rc.Sleep(t0 + d, absoluteTime=True)
         enter(tid)
         rep.count("timed_resumes")
+        if kind == "sleep_abs" and d <= 0:
+          # a deadline that has already passed: resumed at once, not lost
+          rep.count("sleeps_to_a_past_deadline")
+          if clock.now > t0 + 1e-6 and case.get("drive") != "natural":
+            errs.append(("sleep to a past deadline did not resume at once",
+                         "task %s step %d: +%.3f" % (tid, k, clock.now - t0)))
         if clock.now < t0 + d - 1e-9:
           errs.append(("task resumed before its requested time",
                        "task %s step %d (%s %.2f): resumed at +%.3f" %
                        (tid, k, kind, d, clock.now - t0)))
-        if clock.now > t0 + d + 1e-6 and d > 0 and case.get("drive") != "natural":
+        if clock.now > t0 + max(d, 0) + 1e-6 and d > 0 and case.get("drive") != "natural":
           errs.append(("timed wait resumed late in virtual time",
                        "task %s step %d: %.3f late" % (tid, k, clock.now - t0 - d)))
       elif kind == "sel_to":
@@ -187,7 +226,11 @@ def run_program (case, rep):
         # (descriptor collections as list / tuple / set, timeout positional)
         shape = (list, tuple, frozenset)[(tid + k) % 3]
         if shape is not list: rep.count("select_with_non_list_collections")
-        v = yield rc.Select(shape([s]), shape([]), shape([s]), st[1])
+        if (tid + k) % 2:
+          v = yield rc.Select(shape([s]), shape([]), shape([s]), timeout=st[1])
+          rep.count("select_keyword_timeouts")
+        else:
+          v = yield rc.Select(shape([s]), shape([]), shape([s]), st[1])
         enter(tid)
         rep.count("select_timeouts")
         if clock.now < t0 + st[1] - 1e-9:
@@ -219,10 +262,71 @@ def run_program (case, rep):
           if v != payload:
             errs.append(("Recv did not return the data that arrived",
                          "task %s step %d got %r" % (tid, k, v)))
+      elif kind == "recv_to":
+        # a receive with a timeout on a socket nothing arrives on: resumes at
+        # the timeout, with None, once
+        s = sock("%s/%d" % (tid, k))
+        v = yield rc.Recv(s, timeout=st[1])
+        enter(tid)
+        rep.count("recv_timeouts")
+        if clock.now < t0 + st[1] - 1e-9:
+          errs.append(("receive with timeout returned early without I/O",
+                       "task %s step %d at +%.3f of %.3f" % (tid, k, clock.now - t0, st[1])))
+        if v is not None:
+          errs.append(("receive that timed out returned data", repr(v)))
+      elif kind == "sel_two":
+        # two descriptors of one Select become ready at the same instant
+        a = sock("%s/%d/a" % (tid, k)); b = sock("%s/%d/b" % (tid, k))
+        q = sock("%s/%d/q" % (tid, k))
+        externals.append((t0 + st[1], lambda a=a, b=b: (a.feed(b"A"), b.feed(b"B"))))
+        nt[0] = True
+        v = yield rc.Select([a, q, b], [], [], st[2])
+        enter(tid)
+        rep.count("select_several_ready")
+        if v is None or sorted(map(id, v[0])) != sorted([id(a), id(b)]) or v[1] or v[2]:
+          errs.append(("select did not resume with exactly the ready descriptors",
+                       "task %s step %d (two ready) got %r" % (tid, k, v)))
+      elif kind == "sel_w":
+        # waiting for writability: the socket's send buffer is full until an
+        # external drains it
+        s = sock("%s/%d" % (tid, k))
+        s.send_script = ["eagain_blocked"]
+        try: s.send(b"x")
+        except Exception: pass
+        q = sock("%s/%d/q" % (tid, k))
+        externals.append((t0 + st[1], lambda s=s: s.unblock()))
+        nt[0] = True
+        v = yield rc.Select([q], [s], [], st[2])
+        enter(tid)
+        rep.count("select_writable")
+        if v is None or list(v[1]) != [s] or v[0] or v[2]:
+          errs.append(("select did not resume with exactly the ready descriptors",
+                       "task %s step %d (writable) got %r" % (tid, k, v)))
+        if clock.now < t0 + st[1] - 1e-9:
+          errs.append(("select reported a blocked socket writable", ""))
+      elif kind == "bad_op":
+        # a blocking operation that fails when the scheduler executes it: the
+        # task is descheduled, nobody else is affected
+        enter(tid)
+        rep.count("tasks_failed_in_blocking_op")
+        finished.add(tid)
+        leave()
+        class Broken (rc.BlockingOperation):
+          def execute (self_, task, scheduler):
+            if st[1] == "base": raise TaskAbort("operation of task %s fails" % (tid,))
+            raise RuntimeError("operation of task %s fails" % (tid,))
+        v = yield Broken()
+        enter(tid)
+        errs.append(("task resumed after its blocking operation failed",
+                     "task %s step %d got %r" % (tid, k, v)))
       elif kind == "block":
         # unschedule; somebody wakes us
         blocked.add(tid)
-        v = yield False
+        if (tid + k) % 2:
+          rep.count("blocks_via_sleep_without_time")
+          v = yield rc.Sleep()
+        else:
+          v = yield False
         enter(tid)
         blocked.discard(tid); pending_wake.discard(tid)
         rep.count("wakes")
@@ -261,17 +365,21 @@ def run_program (case, rep):
             min_time += sum(plan["ops"])
         try:
           if kind == "again": v = yield rc.Again(sub((tid, k), plan))
+          elif plan.get("plain"):
+            rep.count("plain_task_functions")
+            v = yield tf_plain((tid, k), plan)
           else: v = yield tf_sub((tid, k), plan)
           enter(tid)
           if exp_raise:
             errs.append(("sub-task exception did not reach its caller",
                          "task %s step %d got value %r" % (tid, k, v)))
-          elif v != plan["value"]:
+          elif not same_value(v, plan["value"]):
             errs.append(("sub-task result did not reach its caller",
                          "task %s step %d got %r expected %r" %
                          (tid, k, v, plan["value"])))
           else:
             rep.count("subtask_returns")
+            if not plan["value"]: rep.count("subtask_falsy_returns")
         except ValueError as e:
           enter(tid)
           if not exp_raise or str(e) != "sub-task %s fails" % (exp_tag,):
@@ -302,7 +410,7 @@ def run_program (case, rep):
     yield False
 
   timers = []
-  TIMER_RETURNS = [None, True, 0, 0.0, "", 1, (), 0j]
+  TIMER_RETURNS = [None, True, 0, 0.0, "", 1, (), 0j, False]
   def make_timer (spec):
     fires = []
     tm = dict(spec=spec, fires=fires, created=clock.now, cancelled_at=None)
@@ -316,6 +424,10 @@ def run_program (case, rep):
       rv = TIMER_RETURNS[spec.get("ret", 0)]
       if rv is not None: rep.count("timer_callbacks_returning_a_value")
       return rv
+    tkw = {}
+    if spec.get("not_self_stoppable"):
+      tkw["selfStoppable"] = False
+      rep.count("timers_that_may_not_stop_themselves")
     if spec.get("absolute"):
       # fire at a wall-clock instant (one-shot only)
       t = rc.Timer(clock.now + spec["interval"], cb, absoluteTime=True,
@@ -324,7 +436,7 @@ def run_program (case, rep):
     elif spec.get("start_delay") is not None:
       # created idle, started later: the interval counts from start()
       t = rc.Timer(spec["interval"], cb, recurring=spec["recurring"],
-                   scheduler=sched, started=False)
+                   scheduler=sched, started=False, **tkw)
       def go ():
         tm["created"] = clock.now
         t.start(sched)
@@ -333,7 +445,7 @@ def run_program (case, rep):
       externals.append((clock.now + spec["start_delay"], go))
     else:
       t = rc.Timer(spec["interval"], cb, recurring=spec["recurring"],
-                   scheduler=sched)
+                   scheduler=sched, **tkw)
     tm["timer"] = t
     if spec.get("cancel_at") is not None:
       def cancel ():
@@ -413,8 +525,8 @@ def run_program (case, rep):
         nd = w.next_deadline()
         cand = [x for x in (te, nd, end) if x is not None]
         t = max(min(cand), clock.now)
-        if t > clock.now: w.advance(t - clock.now)
-        else: w.run()
+        # (a deadline that is due at this very instant is expired too)
+        w.advance(t - clock.now)
         while externals and externals[0][0] <= clock.now + 1e-12:
           tm, fn = externals.pop(0)
           fn()
@@ -514,14 +626,21 @@ def rand_step (rng, tid, ntasks, blocks):
   if r < 0.18: return ["y0"]
   if r < 0.30: return ["num", rng.choice([0.5, 1, 2.5, 7])]
   if r < 0.42: return ["sleep", rng.choice([0.25, 1, 3, 10.5])]
-  if r < 0.48: return ["sleep_abs", rng.choice([0.5, 2, 6])]
+  if r < 0.48: return ["sleep_abs", rng.choice([0.5, 2, 6, 0, -1, -30])]
   if r < 0.58: return ["sel_to", rng.choice([0.5, 2, 5])]
   if r < 0.68: return ["sel_data", rng.choice([0.5, 1.5, 4]), rng.choice([None, 50])]
-  if r < 0.74: return ["recv", rng.choice([0.5, 2])]
-  if r < 0.90:
+  if r < 0.72: return ["recv", rng.choice([0.5, 2])]
+  if r < 0.75: return ["recv_to", rng.choice([0.5, 2, 5])]
+  if r < 0.78: return ["sel_two", rng.choice([0.5, 1.5]), rng.choice([None, 50])]
+  if r < 0.81: return ["sel_w", rng.choice([0.5, 1.5, 4]), rng.choice([None, 50])]
+  if r < 0.92:
     plan = dict(ops=[rng.choice([0.5, 1, 2]) for _ in range(rng.randrange(0, 3))],
                 end=rng.choice(["ret", "ret", "raise"]),
-                value="v-%d-%d" % (tid, rng.getrandbits(16)))
+                value=rng.choice(["v-%d-%d" % (tid, rng.getrandbits(16))] * 3 +
+                                 [0, 0.0, "", [], False, True, 1]))
+    if rng.random() < 0.15:
+      plan["plain"] = True; plan["ops"] = []
+      return ["tf", plan]
     if rng.random() < 0.4:
       plan["inner"] = dict(ops=[rng.choice([0.5, 1]) for _ in range(rng.randrange(0, 2))],
                            end=rng.choice(["ret", "raise", "raise"]),
@@ -550,7 +669,8 @@ def gen_random (rng, n):
                                     ["wake", tok, a, rng.choice(["schedule", "fast"])]]
     if rng.random() < 0.25:
       tid = rng.randrange(nt)
-      tasks[tid]["steps"].append(["raise"] if rng.random() < 0.6 else ["raise", "base"])
+      tasks[tid]["steps"].append(rng.choice([["raise"], ["raise"], ["raise", "base"],
+                                            ["bad_op", "exc"], ["bad_op", "base"]]))
     timers = []
     for _ in range(rng.choice([0, 0, 1, 2])):
       rec = rng.random() < 0.6
@@ -561,7 +681,16 @@ def gen_random (rng, n):
       elif r < 0.7 and not rec: sp["absolute"] = True
       if rec and rng.random() < 0.3: sp["stop_after"] = rng.randrange(1, 5)
       if rng.random() < 0.5: sp["ret"] = rng.randrange(8)
+      if rec and rng.random() < 0.2:
+        # a recurring timer that may not stop itself: a callback returning
+        # False changes nothing
+        sp["not_self_stoppable"] = True; sp.pop("stop_after", None)
+        sp["ret"] = 8
       timers.append(sp)
+    case = dict(epoll=False, tasks=tasks, timers=timers)
+    if rng.random() < 0.5: case["inthread"] = True
+    yield case
+    continue
     # a task that blocks on a wake which arrives only after another task died
     yield dict(epoll=False, tasks=tasks, timers=timers)
 
